@@ -147,8 +147,13 @@ Print Assumptions c14_query_sound_partial.
    yields a value of its type; a Bool-typed one yields a boolean (the `boolish` / no-error premises of Side).
    PARTIAL: the fragment is C03's, and the derivation of Side for every sub-residual is not assembled. *)
 Theorem c14_noerr_from_typing_partial :
-  forall m sch env q es, env_ok env q ->
-  forall e, in_fragment e = true ->
+  forall m sch env q es,
+  schema_wf sch = true ->
+  (forall t, is_action_type t = true -> find_etype sch t = None) ->
+  decl_ty_ok (re_context env) = true ->
+  env_ok env q ->
+  store_ok sch es ->
+  forall e, tpe_fragment e = true ->
   forall cs t cs', caps_hold q es cs -> tc m sch env cs e = Some (t, cs') ->
   exists v, eval [] q es e = Ok v /\ TypeConforms v t.
 Proof. exact noerr_from_typing. Qed.
